@@ -43,7 +43,7 @@
 
 #if !defined(__SANITIZE_ADDRESS__) && !defined(C08_HAS_ASAN)
 /* plain build (run under valgrind memcheck): no ASan / LSan run time */
-int __asan_region_is_poisoned(void const volatile *addr, size_t size) { (void) addr; (void) size; return 0; }
+void *__asan_region_is_poisoned(void *beg, size_t size) { (void) beg; (void) size; return NULL; }
 int __lsan_do_recoverable_leak_check(void) { return 0; }
 #endif
 const char *__asan_default_options(void) { return "exitcode=97:leak_check_at_exit=0:allocator_may_return_null=1:malloc_context_size=12:detect_stack_use_after_return=0:max_malloc_fill_size=65536:malloc_fill_byte=190"; }
